@@ -399,7 +399,9 @@ Definition cmeta (E : env) (in_repeat : bool) (st : cstate) (name : list N) (ops
     end
   else if mem_name name [".list"; ".nlist"; ".page"] then
     if negb (need_n ops 0 0) then CUnsup "operand-count" else COk (st, [NoOp])
-  else if mem_name name [".title"; ".sbttl"] then COk (st, [NoOp])
+  else if mem_name name [".title"; ".sbttl"] then
+    (* without text the code reports wrong-meta-operands *)
+    if negb (need_n ops 1 1) then CUnsup "operand-count" else COk (st, [NoOp])
   else if seq_eq name ".once" then
     if negb (need_n ops 0 0) then CUnsup "operand-count"
     else if (2 <=? times_of (times st) (e_file E))%nat then CUnsup "once-second-inclusion" else COk (st, [NoOp])
